@@ -9,14 +9,14 @@
                                                                      231-240, 281-283, 327-341, 381-422, 646-653),
                  ProgressStyle::{with_template, set_tab_width, new, tick_chars, tick_strings, progress_chars,
                                  with_key, template, current_tick_str, format_bar (its output shape)}
-                                                                    (src/style.rs:85-232),
-                 ProgressStyle::{format_state, push_line}            (src/style.rs:234-426)  - EVERY arm,
-                 TabRewriter                                         (src/style.rs:428-435),
-                 WideElement::expand                                 (src/style.rs:443-483),
-                 Template::set_tab_width                             (src/style.rs:641-647),
-                 BarDisplay / RepeatedStringDisplay                  (src/style.rs:691-723),
-                 PaddedStringDisplay::fmt                            (src/style.rs:734-769).
-    Line numbers refer to /repo at commit 8b11f76.
+                                                                    (src/style.rs:85-234),
+                 ProgressStyle::{format_state, push_line}            (src/style.rs:236-430)  - EVERY arm,
+                 TabRewriter                                         (src/style.rs:432-439),
+                 WideElement::expand                                 (src/style.rs:447-487),
+                 Template::set_tab_width                             (src/style.rs:645-651),
+                 BarDisplay / RepeatedStringDisplay                  (src/style.rs:695-727),
+                 PaddedStringDisplay::fmt                            (src/style.rs:738-773).
+    Line numbers refer to /repo at commit 6ff82af.
 
     The OnceLock cache of a TabExpandedString is explicit ([option text]); reading it through a
     shared reference fills it, so rendering and the getters return an updated state.
@@ -90,11 +90,11 @@ Record env := mkenv {
                                             (per_sec uses it as a precision): the text the key writes *)
   e_geom : N -> N -> N * option N * N    (* d-th rendering, number of cells of the bar:
                                             (filled cells, index of the "current" progress
-                                             character if any, background cells), style.rs:193-220 *)
+                                             character if any, background cells), style.rs:195-222 *)
 }.
 
 (** ------------------------------------------------------------------ PaddedStringDisplay
-    style.rs:734-769 on code points; the byte arithmetic ([trunc_range], [pad_split], [nbytes])
+    style.rs:738-773 on code points; the byte arithmetic ([trunc_range], [pad_split], [nbytes])
     is shared with C12's model.  `self.str.len() - excess` cannot underflow when no character
     has more columns than bytes (C12, C14); where it would, this function returns the text
     unchanged, which is what a build without overflow checks does (the wrapped offset makes
@@ -123,18 +123,18 @@ Definition str_get (s : text) (st en : N) : option text :=
   end.
 
 Definition pad_text (cols : text -> N) (s : text) (width : N) (a : Padded.align) (truncate : bool) : text :=
-  let c := cols s in                                   (* :736 *)
-  let excess := c - width in                           (* :737 saturating_sub *)
-  if (0 <? excess) && negb truncate then s             (* :738-739 *)
-  else if 0 <? excess then                             (* :740 *)
+  let c := cols s in                                   (* :740 *)
+  let excess := c - width in                           (* :741 saturating_sub *)
+  if (0 <? excess) && negb truncate then s             (* :742-743 *)
+  else if 0 <? excess then                             (* :744 *)
     match Padded.trunc_range a (blen s) excess with
     | None => s
-    | Some (st, en) => match str_get s st en with Some t => t | None => s end   (* :750 *)
+    | Some (st, en) => match str_get s st en with Some t => t | None => s end   (* :754 *)
     end
   else
-    let diff := width - c in                           (* :753 *)
+    let diff := width - c in                           (* :757 *)
     let '(l, r) := Padded.pad_split a diff in
-    tab_spaces l ++ s ++ tab_spaces r.                 (* :760-767 *)
+    tab_spaces l ++ s ++ tab_spaces r.                 (* :764-771 *)
 
 (* str::trim_end (char::is_whitespace = Unicode White_Space, TAB included) *)
 Definition trim_end (s : text) : text :=
@@ -153,11 +153,11 @@ Definition wrap (o : option sty) (x : text) : text :=
 (** ------------------------------------------------------------------ templates
     [tpl] is a parsed template part (the parser itself is C10's subject; the harness builds the
     template text and this list together); [part] is the same with the literal turned into a
-    TabExpandedString as Template::from_str does, at DEFAULT_TAB_WIDTH (style.rs:499-502,
-    527-530, 584-586, 628-631, 637-639).
+    TabExpandedString as Template::from_str does, at DEFAULT_TAB_WIDTH (style.rs:503-506,
+    531-534, 588-590, 632-635, 641-643).
     [KNum id]: any built-in key other than the six named ones.  [KCustom k]: a key looked up in
-    the style's format_map (a custom key named like a built-in one shadows it, style.rs:257: such
-    a placeholder is a [KCustom]); not registered: writes nothing (style.rs:361). *)
+    the style's format_map (a custom key named like a built-in one shadows it, style.rs:259: such
+    a placeholder is a [KCustom]); not registered: writes nothing (style.rs:365). *)
 Inductive key := KMsg | KPrefix | KWideMsg | KWideBar | KBar | KSpinner | KNum (id : N) | KCustom (k : N).
 Record ph := mkph { p_key : key; p_align : Padded.align; p_width : option N; p_trunc : bool;
                     p_style : option sty; p_alt : option sty }.
@@ -186,7 +186,7 @@ Fixpoint key_lookup (k : N) (m : keymap) : option (list text) :=
   end.
 
 (** tick strings, progress characters (grapheme clusters) and their common column width
-    (`char_width`), style.rs:25-29; stored as given (style.rs:114-158) *)
+    (`char_width`), style.rs:25-29; stored as given (style.rs:114-160) *)
 Record glyphs := mkglyphs { g_ticks : list text; g_pchars : list text; g_cw : N }.
 (* ProgressStyle::new, style.rs:94-108 *)
 Definition default_glyphs : glyphs :=
@@ -194,13 +194,13 @@ Definition default_glyphs : glyphs :=
 
 Record style := mkstyle { s_tw : N; s_keys : keymap; s_parts : list part; s_gl : glyphs }.
 
-(* ProgressStyle::with_template + tick_*/progress_chars + with_key…: style.rs:85-87, 94-164 *)
+(* ProgressStyle::with_template + tick_*/progress_chars + with_key…: style.rs:85-87, 94-166 *)
 Definition style_new (keys : keymap) (g : glyphs) (t : list tpl) : style :=
   mkstyle DEFAULT_TAB_WIDTH keys (map part_of_tpl t) g.
-(* ProgressStyle::template: style.rs:169-172 (tab_width, format_map, tick strings, progress chars are kept) *)
+(* ProgressStyle::template: style.rs:171-174 (tab_width, format_map, tick strings, progress chars are kept) *)
 Definition style_template (st : style) (t : list tpl) : style :=
   mkstyle (s_tw st) (s_keys st) (map part_of_tpl t) (s_gl st).
-(* ProgressStyle::set_tab_width style.rs:89-92, Template::set_tab_width style.rs:641-647 *)
+(* ProgressStyle::set_tab_width style.rs:89-92, Template::set_tab_width style.rs:645-651 *)
 Definition part_set_tw (n : N) (p : part) : part :=
   match p with PLit t => PLit (tes_set_tw t n) | _ => p end.
 Definition style_set_tw (st : style) (n : N) : style :=
@@ -213,7 +213,7 @@ Definition KEY_LEN : N := 8.
 Definition default_tpl : list tpl :=
   [TPh (bare KWideBar); TLit [32]; TPh (bare (KNum KEY_POS)); TLit [47]; TPh (bare (KNum KEY_LEN))].
 
-(** ProgressFinish (state.rs:624-644) and Status (state.rs) *)
+(** ProgressFinish (state.rs:631-651) and Status (state.rs) *)
 Inductive finish := FAndLeave | FWithMessage (s : text) | FAndClear | FAbandon | FAbandonWithMessage (s : text).
 Inductive status := InProgress | DoneVisible | DoneHidden.
 
@@ -275,9 +275,9 @@ Fixpoint split_nl (s : text) : list text :=
                    end
   end.
 
-(* TabRewriter: every write_str chunk is rewritten on its own, style.rs:430-435 *)
+(* TabRewriter: every write_str chunk is rewritten on its own, style.rs:434-439 *)
 Definition chunks_text (w : N) (chunks : list text) : text := concat (map (fun c => expand c w) chunks).
-(* style.rs:257-258; a key that is neither custom nor built in writes nothing (:361) *)
+(* style.rs:259-260; a key that is neither custom nor built in writes nothing (:365) *)
 Definition key_text (w : N) (m : keymap) (k : N) : text :=
   match key_lookup k m with Some c => chunks_text w c | None => [] end.
 
@@ -287,32 +287,33 @@ Record rctx := mkrctx { c_env : env; c_d : N; c_tw : N; c_keys : keymap; c_gl : 
 
 Definition rep (x : text) (n : N) : text := N.iter n (app x) [].
 
-(* BarDisplay::fmt, style.rs:698-708, for the geometry [geo]; `rest` is always a StyledObject
-   (`alt_style.unwrap_or(&Style::new())`, :230) *)
+(* BarDisplay::fmt, style.rs:702-712, for the geometry [geo]; `rest` is always a StyledObject
+   (`alt_style.unwrap_or(&Style::new())`, :232) *)
 Definition bar_text (g : glyphs) (geo : N * option N * N) (alt : option sty) : text :=
   let '(filled, cur, bg) := geo in
   rep (nth 0 (g_pchars g) []) filled
   ++ match cur with Some i => nth (N.to_nat i) (g_pchars g) [] | None => [] end
   ++ wrap alt (rep (last (g_pchars g) []) bg).
-(* ProgressStyle::format_bar, style.rs:191-232: `width / self.char_width` cells *)
+(* ProgressStyle::format_bar, style.rs:193-234: `width / self.char_width` cells *)
 Definition format_bar (c : rctx) (width : N) (alt : option sty) : text :=
   bar_text (c_gl c) (e_geom (c_env c) (c_d c) (width / g_cw (c_gl c))) alt.
 
-(* current_tick_str, style.rs:174-189 *)
+(* current_tick_str, style.rs:176-191 (the tick string as stored) *)
 Definition tick_text (g : glyphs) (tick : N) (fin : bool) : text :=
   let n := N.of_nat (length (g_ticks g)) in
   if fin then last (g_ticks g) [] else nth (N.to_nat (tick mod (n - 1))) (g_ticks g) [].
 
 Inductive wide := WNone | WBar (alt : option sty) | WMsg (a : Padded.align).
 
-(* `buf` for the keys that do not read a TabExpandedString, style.rs:257-361 *)
+(* `buf` for the keys that do not read a TabExpandedString, style.rs:259-365 *)
 Definition static_buf (c : rctx) (h : ph) : text :=
   match p_key h with
-  | KCustom k => key_text (c_tw c) (c_keys c) k                                          (* :257-258 *)
-  | KWideBar | KWideMsg => [NUL]                                                         (* :261-264, 276-279 *)
-  | KBar => format_bar c (match p_width h with Some w => w | None => DEFAULT_BAR_WIDTH end) (p_alt h)  (* :265-274 *)
-  | KSpinner => tick_text (c_gl c) (c_tick c) (c_fin c)                                  (* :275 *)
-  | KNum id => e_num (c_env c) (c_d c) id (p_width h)                                    (* :282-360 *)
+  | KCustom k => key_text (c_tw c) (c_keys c) k                                          (* :259-260 *)
+  | KWideBar | KWideMsg => [NUL]                                                         (* :263-266, 280-283 *)
+  | KBar => format_bar c (match p_width h with Some w => w | None => DEFAULT_BAR_WIDTH end) (p_alt h)  (* :267-276 *)
+  | KSpinner => expand (tick_text (c_gl c) (c_tick c) (c_fin c)) (c_tw c)               (* :277-279: through
+                                   TabRewriter with the style's tab width AT RENDER TIME (since 6ff82af) *)
+  | KNum id => e_num (c_env c) (c_d c) id (p_width h)                                    (* :286-364 *)
   | KMsg | KPrefix => []                                                                 (* see fmt_part *)
   end.
 Definition wide_of (h : ph) (w : wide) : wide :=
@@ -321,7 +322,7 @@ Definition wide_of (h : ph) (w : wide) : wide :=
   | KWideMsg => WMsg (p_align h)
   | _ => w
   end.
-(* what is appended to `cur` for a placeholder whose `buf` is [buf], style.rs:365-384 *)
+(* what is appended to `cur` for a placeholder whose `buf` is [buf], style.rs:369-388 *)
 Definition ph_post (c : rctx) (h : ph) (buf : text) : text :=
   wrap (p_style h)
        (match p_width h with
@@ -329,21 +330,21 @@ Definition ph_post (c : rctx) (h : ph) (buf : text) : text :=
         | None => buf
         end).
 
-(** WideElement::expand, style.rs:443-483 *)
+(** WideElement::expand, style.rs:447-487 *)
 Definition remove_nul (s : text) : text := filter (fun c => negb (c =? NUL)) s.
 Definition replace_nul (s x : text) : text := flat_map (fun c => if c =? NUL then x else [c]) s.
 Definition ends_nul (s : text) : bool := match rev s with c :: _ => c =? NUL | [] => false end.
-Definition wide_left (c : rctx) (cur : text) : N :=                                       (* :452 *)
+Definition wide_left (c : rctx) (cur : text) : N :=                                       (* :456 *)
   e_termw (c_env c) (c_d c) - e_cols (c_env c) (remove_nul cur).
-Definition wide_bar_line (c : rctx) (alt : option sty) (cur : text) : text :=             (* :454-460 *)
+Definition wide_bar_line (c : rctx) (alt : option sty) (cur : text) : text :=             (* :458-464 *)
   replace_nul cur (format_bar c (wide_left c cur) alt).
-Definition wide_msg_line (c : rctx) (a : Padded.align) (emsg cur : text) : text :=        (* :461-480 *)
+Definition wide_msg_line (c : rctx) (a : Padded.align) (emsg cur : text) : text :=        (* :465-484 *)
   let buf := pad_text (e_cols (c_env c)) emsg (wide_left c cur) a true in
   replace_nul cur (if ends_nul cur then trim_end buf else buf).
 
 Record fmt := mkfmt { f_msg : tes; f_prefix : tes; f_cur : text; f_lines : list text; f_wide : wide }.
 
-(* push_line, style.rs:399-425: the wide element (if one was met so far) is expanded, then every
+(* push_line, style.rs:403-429: the wide element (if one was met so far) is expanded, then every
    '\n'-separated piece becomes a bar line *)
 Definition push_line (c : rctx) (f : fmt) : fmt :=
   match f_wide f with
@@ -351,22 +352,22 @@ Definition push_line (c : rctx) (f : fmt) : fmt :=
   | WBar alt =>
       mkfmt (f_msg f) (f_prefix f) [] (f_lines f ++ split_nl (wide_bar_line c alt (f_cur f))) (f_wide f)
   | WMsg a =>
-      let '(e, m') := tes_expanded (f_msg f) in                                           (* :466 *)
+      let '(e, m') := tes_expanded (f_msg f) in                                           (* :470 *)
       mkfmt m' (f_prefix f) [] (f_lines f ++ split_nl (wide_msg_line c a e (f_cur f))) (f_wide f)
   end.
 
 Definition fmt_part (c : rctx) (f : fmt) (p : part) : fmt * part :=
   match p with
-  | PLit t =>                                                   (* style.rs:386 *)
+  | PLit t =>                                                   (* style.rs:390 *)
       let '(e, t') := tes_expanded t in
       (mkfmt (f_msg f) (f_prefix f) (f_cur f ++ e) (f_lines f) (f_wide f), PLit t')
-  | PNewLine => (push_line c f, p)                              (* :387-389 *)
+  | PNewLine => (push_line c f, p)                              (* :391-393 *)
   | PPh h =>
       match p_key h with
-      | KMsg =>                                                 (* :280, then :365-384 *)
+      | KMsg =>                                                 (* :284, then :369-388 *)
           let '(e, m') := tes_expanded (f_msg f) in
           (mkfmt m' (f_prefix f) (f_cur f ++ ph_post c h e) (f_lines f) (f_wide f), p)
-      | KPrefix =>                                              (* :281 *)
+      | KPrefix =>                                              (* :285 *)
           let '(e, m') := tes_expanded (f_prefix f) in
           (mkfmt (f_msg f) m' (f_cur f ++ ph_post c h e) (f_lines f) (f_wide f), p)
       | _ =>
@@ -390,7 +391,7 @@ Definition format_state (E : env) (b : bar) : bar * list text :=
   let st := b_style b in
   let c := mkrctx E (b_draws b) (s_tw st) (s_keys st) (s_gl st) (b_tick b) (is_finished (b_status b)) in
   let '(f, parts') := fmt_parts c (mkfmt (b_msg b) (b_prefix b) [] [] WNone) (s_parts st) in
-  let f' := match f_cur f with [] => f | _ => push_line c f end in     (* style.rs:393-395 *)
+  let f' := match f_cur f with [] => f | _ => push_line c f end in     (* style.rs:397-399 *)
   (mkbar (b_tw b) (f_msg f') (f_prefix f') (mkstyle (s_tw st) (s_keys st) parts' (s_gl st)) (b_saved b)
          (b_tick b) (b_status b) (b_onfin b) (b_draws b + 1),
    f_lines f').
@@ -425,7 +426,15 @@ Inductive op :=
 
 (** what a call produces: [ODraw txt lines] - the text lines (println only) and the BAR LINES
     put into the draw state, which draw_to_term writes one by one; a getter's result; nothing *)
-Inductive out := ODraw (txt : list text) (lines : list text) | OGot (s : text) | ONone.
+Inductive out := ODraw (txt : list text) (lines : list text) | OGot (s : text) | ONone
+               | OBuildPanic.   (* the style builder panicked: no style was built, the bar is untouched *)
+
+(** ProgressStyle::progress_chars rejects a TAB (`assert!(!s.contains('\t'), ..)`, style.rs:157-158,
+    since 6ff82af); the clusters partition the argument, so it contains a TAB iff one of them
+    does.  The builder's other rejections (fewer than two clusters, unequal or zero widths; fewer
+    than two tick strings) are C14's subject and not modelled here: a history contains only
+    [glyphs] that pass them.  [default_glyphs] (the builder is not called) is accepted. *)
+Definition glyphs_accept (g : glyphs) : bool := forallb (fun s => negb (has_tab s)) (g_pchars g).
 
 Definition draw (E : env) (b : bar) : bar * out :=
   let '(b', l) := render E b in (b', ODraw [] l).
@@ -445,7 +454,8 @@ Definition step (E : env) (b : bar) (o : op) : bar * out :=
   match o with
   | SetTabWidth n => draw E (bar_set_tw b n)                      (* progress_bar.rs:167-171 *)
   | WithTabWidth n => (bar_set_tw b n, ONone)                     (* :95-98 *)
-  | SetStyleNew keys g t => (bar_set_style b (style_new keys g t), ONone)   (* :162-164 / :89-92 *)
+  | SetStyleNew keys g t =>                                        (* :162-164 / :89-92 *)
+      if glyphs_accept g then (bar_set_style b (style_new keys g t), ONone) else (b, OBuildPanic)
   | SetStyleDerived t => (bar_set_style b (style_template (b_style b) t), ONone)
   | SaveStyle => (bar_set_saved b (Some (b_style b)), ONone)      (* :84-86 clone *)
   | RestoreStyle => match b_saved b with
@@ -557,7 +567,7 @@ Definition ref_step (E : env) (r : rbar) (o : op) : rbar * out :=
   match o with
   | SetTabWidth n => drawn (upd_tw n)
   | WithTabWidth n => (upd_tw n, ONone)
-  | SetStyleNew keys g t => (upd_style keys g t, ONone)
+  | SetStyleNew keys g t => if glyphs_accept g then (upd_style keys g t, ONone) else (r, OBuildPanic)
   | SetStyleDerived t => (upd_style (r_keys r) (r_gl r) t, ONone)
   | SaveStyle => (mkrbar (r_tw r) (r_msg r) (r_prefix r) (r_keys r) (r_gl r) (r_tpl r)
                          (Some (r_keys r, r_gl r, r_tpl r)) (r_tick r) (r_status r) (r_onfin r) (r_draws r), ONone)
@@ -629,22 +639,18 @@ Definition out_notab (x : out) : Prop :=
   match x with
   | ODraw _ ls => Forall notab ls
   | OGot s => notab s
-  | ONone => True
+  | ONone | OBuildPanic => True
   end.
 
-(** the two things format_state copies verbatim: *)
-(* (1) tick strings and progress characters of a style; a style violating this is the class
-   'tab-in-tick-or-progress-chars' *)
-Definition glyphs_ok (g : glyphs) : Prop := Forall notab (g_ticks g) /\ Forall notab (g_pchars g).
-(* (2) the escape sequences console::Style writes around a styled placeholder *)
+(** what format_state copies verbatim: the escape sequences console::Style writes around a
+    styled placeholder *)
 Definition sty_ok (o : option sty) : Prop :=
   match o with Some y => notab (y_pre y) /\ notab (y_post y) | None => True end.
 Definition tpl_ok (p : tpl) : Prop :=
   match p with TPh h => sty_ok (p_style h) /\ sty_ok (p_alt h) | _ => True end.
 Definition op_ok (o : op) : Prop :=
   match o with
-  | SetStyleNew _ g t => glyphs_ok g /\ Forall tpl_ok t
-  | SetStyleDerived t => Forall tpl_ok t
+  | SetStyleNew _ _ t | SetStyleDerived t => Forall tpl_ok t
   | _ => True
   end.
 (* the numeric / time built-in keys write digits, punctuation, unit names: no TAB *)
@@ -657,12 +663,13 @@ Definition out_eqb (m o : out) : bool :=
   | ODraw t l, ODraw t' l' => list_eqb text_eqb t t' && list_eqb text_eqb l l'
   | OGot s, OGot s' => text_eqb s s'
   | ONone, ONone => true
+  | OBuildPanic, OBuildPanic => true
   | _, _ => false
   end.
 
 (** The environment of the harness's runs: a draw target of fixed width [W]; bars without a
     length whose position stays 0, so the fraction is 0 and a bar consists of background cells
-    only (state.rs:286-295, style.rs:193-220) and the numeric keys are the constants [nums]
+    only (state.rs:286-295, style.rs:195-222) and the numeric keys are the constants [nums]
     except where [pernum] says otherwise;
     measure_text_width = sum of the characters' widths ([wt]: the characters whose width is
     not 1) outside `ESC ... letter` sequences (the sequences console::Style writes). *)
